@@ -1,6 +1,7 @@
 package main
 
 import (
+	"go/ast"
 	"sync"
 	"fmt"
 	"go/token"
@@ -628,6 +629,10 @@ func (e *Exec) loopOrdinals(fn *ssa.Function, loops map[*ssa.BasicBlock]*loopInf
 	var stmts []loopSpan
 	if fd := e.funcDeclOf(fn); fd != nil {
 		for _, s := range loopStmtsNode(fd) {
+			stmts = append(stmts, loopSpan{s.Pos(), s.End()})
+		}
+	} else if lit, ok := fn.Syntax().(*ast.FuncLit); ok {
+		for _, s := range loopStmtsBody(lit.Body) {
 			stmts = append(stmts, loopSpan{s.Pos(), s.End()})
 		}
 	}
